@@ -84,6 +84,8 @@ def parse_fmt(fmt):
 
 class StrSym:
     """A symbolic text string."""
+    py_type = 'str'
+
     def __init__(self, name):
         self.name = name
         self.bytes = SeqVar(f'enc({name})', 255)
@@ -210,12 +212,13 @@ def flatten(x):
     return [Opaque(f'written {x!r}')]
 
 
-class Packed:
+class Packed(AList):
     def __init__(self, fields):
-        self.fields = fields
+        AList.__init__(self, fields, 'bytes')
 
-    def __repr__(self):
-        return f'Packed({self.fields!r})'
+    @property
+    def fields(self):
+        return self.items
 
 
 # ------------------------------------------------------------------ summaries
@@ -344,7 +347,7 @@ def install(ai: AbsInt, ctx, clip_model=True):
         msgs = interp.iterate(args[0], node)
         eot = make_meta(interp, ctx, 'end_of_track', {}, time=0)
         return AList(list(msgs) + [eot], 'list')
-    ai.summaries['mido/midifiles/tracks.py::fix_end_of_track'] = s_fix_eot
+    ai.fix_eot_summary = s_fix_eot     # not installed: fix_end_of_track is interpreted (eager generator)
 
     def s_sysexdata(interp, args, kwargs, node):
         src = args[0] if args else AList([], 'tuple')
